@@ -149,6 +149,12 @@ def check_type(t, reg):
     t2 = t1.resolve(reg)
     if ser(t2) != ser(t1) or repr(t2) != repr(t1):
         return "resolving twice differs from resolving once"
+    # the resolved objects have now been used several times: they still say what the original says
+    for k, x in (("once", t1), ("twice", t2)):
+        if ser(x) != ser(t):
+            return f"the serialized form of the type resolved {k} changed after it had been used (second serialization differs)"
+        if x.type_bound() != t.type_bound():
+            return f"the bound of the type resolved {k} changed after it had been used"
     return None
 
 
@@ -217,9 +223,13 @@ def check_hugr(doc, reg):
         elif op1 is not op0:
             return f"node {n.idx}: a non-custom operation was replaced"
     js1 = h.to_json()
+    if norm(js1) != norm(doc):
+        return "the serialized document of the resolved HUGR changed on its second serialization"
     h.resolve_extensions(reg)
     if h.to_json() != js1:
         return "resolving the HUGR twice differs from resolving once"
+    if norm(h.to_json()) != norm(doc):
+        return "the serialized document changed after resolving twice and serializing again"
     return None
 
 
